@@ -88,14 +88,39 @@ def finalize_model_spec(r):
         r.violation_lines.append("VIOLATION property=%s replay=%s no-failing-input-found" % (r.prop, p))
 
 
-def impl_replace(g, x, sub, anchors, multi):
+CALL_FORMS = ("positional", "keyword", "graph_defaults", "graph_with_name_and_properties")
+
+
+def call_form_of(*parts):
+    """the argument form of a call, a fixed function of the input (a quarter each; no random draw: the input stream of
+    a seed stays what it was)"""
+    import zlib
+    return zlib.crc32(repr(parts).encode("utf-8"))
+
+
+def impl_replace(g, x, sub, anchors, multi, form="positional"):
+    """replace_node in one of its documented argument forms: everything positional; everything by keyword (also the
+    ProxyGraph); ProxyGraph(pattern) with the documented default anchor [0] where the anchors are [0]; a ProxyGraph that
+    carries a name and extra graph properties"""
     from fgutils.parse import Parser
     from fgutils.proxy import replace_node, ProxyGraph
-    return enc_graph(replace_node(g, x, ProxyGraph(sub, anchor=list(anchors)), Parser(use_multigraph=multi)))
+    parser = Parser(use_multigraph=multi)
+    if form == "keyword":
+        return enc_graph(replace_node(graph=g, node=x, replacement_graph=ProxyGraph(pattern=sub, anchor=list(anchors)), parser=parser))
+    if form == "graph_defaults":
+        pg = ProxyGraph(sub) if list(anchors) == [0] else ProxyGraph(sub, list(anchors))
+        return enc_graph(replace_node(g, x, pg, parser=parser))
+    if form == "graph_with_name_and_properties":
+        return enc_graph(replace_node(g, x, ProxyGraph(sub, list(anchors), "sub", weight=2, group="q"), parser))
+    return enc_graph(replace_node(g, x, ProxyGraph(sub, anchor=list(anchors)), parser))
 
 
-def impl_relabel(g, offset):
+def impl_relabel(g, offset, form="positional"):
     from fgutils.proxy import relabel_graph
+    if form == "keyword":
+        return enc_graph(relabel_graph(g, offset=offset))
+    if form == "default" and offset == 0:
+        return enc_graph(relabel_graph(g))
     return enc_graph(relabel_graph(g, offset))
 
 
@@ -210,8 +235,11 @@ def make_case(r, g, x, sub, anchors, multi, meta, tags, contract_cache, form_rng
         g_impl, form = as_variant(g, form_rng, variant_kinds)
         meta["variant"] = form
         tags = tuple(tags) + ("input_form", form)
-    out = call_impl(impl_replace, g_impl, x, sub, anchors, multi)
+    cform = CALL_FORMS[call_form_of(sub, list(anchors), x, n) % len(CALL_FORMS)]
+    meta["call_form"] = cform
+    out = call_impl(impl_replace, g_impl, x, sub, anchors, multi, cform)
     tags = tuple(tags) + (
+        "call=" + cform,
         "multi" if multi else "simple",
         "sub_empty" if hn == 0 else "sub_nonempty",
         "overflow" if hn > 0 and deg > len(anchors) else "no_overflow",
@@ -285,11 +313,11 @@ def replay(path):
         return g
     if req[1] == "replace":
         g = dec_graph(req[2])
-        out = call_impl(impl_replace, formed(g), int(req[3]), meta["sub"], [int(a) for a in req[5]], meta["multi"])
+        out = call_impl(impl_replace, formed(g), int(req[3]), meta["sub"], [int(a) for a in req[5]], meta["multi"], meta.get("call_form", "positional"))
         case = Case([Atom("C13"), Atom("replace"), enc_graph(g), int(req[3]), enc_graph(dec_graph(req[4])), [int(a) for a in req[5]]], out, meta=meta)
     else:
         g = dec_graph(req[2])
-        out = call_impl(impl_relabel, formed(g), int(req[3]))
+        out = call_impl(impl_relabel, formed(g), int(req[3]), meta.get("call_form", "positional"))
         case = Case([Atom("C13"), Atom("relabel"), enc_graph(g), int(req[3])], out, meta=meta)
     drv = Driver()
     o = Outcome(case, drv.ask(case.line()))
@@ -450,6 +478,9 @@ def run(tier, seed):
             sub = "CO"
             hn = 2
         anchors = [rng.randrange(hn) for _ in range(rng.randint(1, 4))] if hn else [0]
+        if hn and len(anchors) == 4 and k % 2 == 0:
+            # anchor lists of length 5-6 (a fixed function of the list drawn: the seed's input stream stays what it was)
+            anchors = anchors + [(anchors[0] + 1) % hn] + ([anchors[1]] if k % 4 == 0 else [])
         # the FORM of the input (12%): the same parent with extra attributes / numpy ids / frozen / as a view
         cases.append(make_case(r, g, x, sub, anchors, multi, meta, tags, cc, form_rng=rng if rng.random() < 0.12 else None))
         if k % 6 == 0:
@@ -462,9 +493,12 @@ def run(tier, seed):
             form = None
             if rng.random() < 0.12:
                 gg, form = as_variant(gg, rng)
-            out = call_impl(impl_relabel, gg, off)
-            cases.append(Case(req, out, meta={"offset": off, "variant": form},
-                              tags=("relabel", "n>=7" if gg.number_of_nodes() >= 7 else "n<7") + (("input_form", form) if form else ()),
+            cform = ("positional", "keyword", "default")[call_form_of(off, gg.number_of_nodes(), k) % 3]
+            if cform == "default" and off != 0:
+                cform = "positional"               # relabel_graph(g) is the call with offset 0
+            out = call_impl(impl_relabel, gg, off, cform)
+            cases.append(Case(req, out, meta={"offset": off, "variant": form, "call_form": cform},
+                              tags=("relabel", "call=" + cform, "n>=7" if gg.number_of_nodes() >= 7 else "n<7") + (("input_form", form) if form else ()),
                               nontrivial_key=("relabel", sx(req[2]), off, form) if gg.number_of_nodes() >= 2 else None))
     process(cases)
     dom_mismatch, inc_bad, exact_bad = stats["dom_mismatch"], stats["inc_bad"], stats["exact_bad"]
